@@ -19,8 +19,6 @@ Definition optype_eqb (a b : optype) : bool :=
                  "reveal value = multihash of the canonical signing key", a well-formed compact
                  JWS with allowed protected header and (deactivate) signed suffix = suffix
    - reveal_c  : the commitment recomputed from the reveal value (hash of the decoded reveal)
-   - next_c    : what GetCommitment returns: update -> delta.updateCommitment, recover -> signed
-                 recoveryCommitment, deactivate -> 0
    - sig_ok    : VerifyJWS(signedData, key inside signed data) succeeds
    - sfx_ok    : deactivate: signed didSuffix equals the request's didSuffix
    - dhash_ok  : delta matches the (signed / suffix-data) delta hash
@@ -35,12 +33,23 @@ Definition optype_eqb (a b : optype) : bool :=
 Record aop := {
   oid : Z; ty : optype; time : Z; num : Z; cref : Z;
   mdelta : option Z;
-  parse_ok : bool; reveal_c : Z; next_c : Z;
+  parse_ok : bool; reveal_c : Z;
   sig_ok : bool; sfx_ok : bool; dhash_ok : bool; dvalid : bool; patch_ok : bool;
   a_from : Z; a_until : Z;
   delta : Z; upd_c : Z; rec_c : Z; origin : Z }.
 
 Definition published (o : aop) : bool := negb (cref o =? 0).
+
+(* operationparser.GetCommitment: the next commitment an operation commits to is the very field
+   that Apply later installs: update -> delta.updateCommitment, recover -> signed
+   recoveryCommitment, deactivate -> "" *)
+Definition next_c (o : aop) : Z :=
+  match ty o with
+  | Update => upd_c o
+  | Recover => rec_c o
+  | Deactivate => 0
+  | Create => 0
+  end.
 
 (* protocol.ResolutionModel without the operation lists *)
 Record state := {
